@@ -21,7 +21,31 @@ CORPUS = [
     "-name a -fprint A -o -name b -fprint B -o -name c -fprint0 C", "-mtime -3 -atime +1 -cmin 5 -print", "-amin 4 -fprint A -mmin +2 -fprint B",
     "-true", "-size +3k -uid 5 -print", "-path x -ipath y -name x -iname y -print0 -fprint0 Z -fprintf Z 'q'",
     "-fprint A -fprint B -fprint C -fprint D -fprint E", "-ctime 1 -o -ctime 2 -o -ctime 3",
+    "-printf '%g\\n'", "-name a -printf '%s %p\\n' -o -fprintf A '%u:%U\\n'", "-perm -u+w -size -2k -links +3 -printf '%m %n\\n'",
 ]
+A_CLASS, D_CLASS = "pfguhPH", "sUGinbk"
+
+
+def siblings(text):
+    """texts of the same shape with other payloads (other directives of the same placeholder class, other names, numbers and
+    files): a cache keyed on anything less than the whole input would confuse them with `text`"""
+    def variant(step):
+        def directive(m):
+            c = m.group(1)
+            for cls in (A_CLASS, D_CLASS):
+                if c in cls:
+                    return "%" + cls[(cls.index(c) + step) % len(cls)]
+            return m.group(0)
+        t = re.sub(r"%([a-zA-Z])", directive, text)
+        t = re.sub(r"(?<![\w%:'{-])(\d+)", lambda m: str(int(m.group(1)) + step), t)
+        t = re.sub(r"(-i?name|-i?path|-fprint0?|-fprintf|-pool|-xattr) ([A-Za-z])", lambda m: "%s %s%s" % (m.group(1), m.group(2), "x" * step), t)
+        return t
+    out = []
+    for step in (1, 2):
+        v = variant(step)
+        if v != text and v not in out:
+            out.append(v)
+    return out
 
 
 def compile_text(B, text, I=None, st=None, hash_order="fwd", allow_fail=False):
@@ -50,6 +74,18 @@ def compile_text(B, text, I=None, st=None, hash_order="fwd", allow_fail=False):
     B.fn_seen |= I.stats["fns"]
     B.intr_seen |= I.stats["intrinsics"]
     return I, o3[0][0], tree, ce, o3[0][1].items
+
+
+def confirm_after(B, rep, first, text):
+    """native replay: one process compiles `first` and then `text`; another process compiles `text` alone"""
+    a = B.ctx.run_native([first, text], "debug")
+    b = B.ctx.run_native([text], "debug")
+    strip = lambda s_: re.sub(r"\(- \d+ \(", "(- T (", s_ or "")
+    if strip(a[1].get("scheme")) == strip(b[0].get("scheme")) and a[1].get("iomap") == b[0].get("iomap"):
+        rep.inconclusive.append("history witness (%r before %r) does not reproduce natively" % (first, text))
+    else:
+        rep.violation("nondeterminism", "%r compiled after %r in the same process gives a different program than compiled alone" % (text, first),
+                      dict(input=text, history=[first, text]))
 
 
 def iomap_set(ce):
@@ -107,7 +143,9 @@ def run(ctx, rep, tier):
         I = B.engine("dev").fresh()
         st = St()
         seq = []
-        for t in (text, "-name zz -fprint QQ -print0", text, "-mmin 3 -o -iname q", "-mmin -5 -user root", "-fprint Z -ls", text):
+        sibs = siblings(text)
+        for t in [text, "-name zz -fprint QQ -print0", text, "-mmin 3 -o -iname q", "-mmin -5 -user root", "-fprint Z -ls", text] + \
+                 [x for sb in sibs for x in (sb, text)]:
             n_reads = len(I.clock_reads)
             _, st, _, ce_i, items_i = compile_text(B, t, I=I, st=st, allow_fail=True)
             if ce_i is None:
@@ -118,6 +156,21 @@ def run(ctx, rep, tier):
         rep.query("%s:repeat-in-process" % text, "unsat" if ok else "sat", 0.0)
         if not ok:
             confirm_nondeterminism(B, rep, text, "result depends on earlier calls in the same process")
+        # (b') a fresh process in which a sibling of the same shape is compiled FIRST (a cache filled by the sibling must not answer)
+        for sb in sibs:
+            I2 = B.engine("dev").fresh()
+            st2 = St()
+            try:
+                _, st2, _, ce_s, _ = compile_text(B, sb, I=I2, st=st2, allow_fail=True)
+            except Inconclusive:
+                continue
+            n_reads = len(I2.clock_reads)
+            _, st2, _, ce_t, items_t = compile_text(B, text, I=I2, st=st2, allow_fail=True)
+            ok2 = ce_t is not None and strip_clock(items_t, I2.clock_reads[n_reads:]) == ref and iomap_set(ce_t) == iomap_set(ce0)
+            rep.query("%s:after-sibling:%s" % (text, sb), "unsat" if ok2 else "sat", 0.0)
+            if not ok2:
+                confirm_after(B, rep, sb, text)
+                break
         if I.nondet_reads or I0.nondet_reads:
             confirm_nondeterminism(B, rep, text, "reads process-specific state: %s" % (I.nondet_reads or I0.nondet_reads))
         # (c) clock
